@@ -882,6 +882,11 @@ class Executor:
             return ClassV(dotted.split('.')[-1])
         return ModuleV(dotted)
 
+    def ev_NamedExpr(self, node, fr):
+        v = self.ev(node.value, fr)
+        self.assign(node.target, v, fr)
+        return v
+
     def ev_Tuple(self, node, fr):
         return TupV(self.ev_elts(node.elts, fr))
 
